@@ -13,13 +13,21 @@ A *description* is a JSON-able nested list  [kind, opts, kids]:
            table: "ncols" (int) and "cols" (list of ncols dicts of per-column options, each key
            one deviation).  A tree's "collapsed" option lists node indices that are not
            expanded (one deviation per index).
+           A title-like option (panel / rule / columns title, table title / caption / hdr / ftr) is a str, or
+           {"text": s} = "pass a rich Text object", or {"text": s, "share": key} = "pass THE Text object named
+           key" (see build(desc, bind)); a text leaf may carry "share": key as well (structural).
     kids   list of child descriptions.  tree: the node labels in index order (node 0 is the
            root; parent of node i: flat -> 0, chain -> i-1, mixed -> (i-1)//2).  table: the
            cells row-major (nrows = len(kids) // ncols); headers/footers are the fixed strings
            HEADERS[i] / FOOTERS[i].
 
 Public functions
-    build(desc)                       -> a FRESH Rich renderable (never cached, never shared)
+    build(desc, bind=None)            -> a FRESH Rich renderable (never cached).  bind=None: every Text use is its
+                                         own object ("copies").  bind={}: uses with the same "share" key get ONE
+                                         Text object (created on first use, kept in bind) -- the shared-argument
+                                         histories of family SH; pass the same dict to several build() calls to
+                                         share an object between separately rendered parts
+    optstr(v)                         -> the string of a title-like option value (str | {"text": s, ...} | None)
     make_console(kind)                -> Console for kind in CONSOLE_KINDS ("utf8" | "ascii" | "legacy"),
                                          width 200, deterministic (one per kind and process)
     render_widths(console, obj, W)    -> [cell width of every "\\n"-delimited line] of
@@ -34,8 +42,9 @@ Public functions
                                       -> every single-child container chain of exactly `length` containers
     sites(desc, alts=None, include_fixed=False)
                                       -> [(path, option name, [alternative values])] of a tree
-    variants(desc, k, alts=None, include_fixed=False, exactly=False)
+    variants(desc, k, alts=None, include_fixed=False, exactly=False, only=None)
                                       -> every tree obtained from `desc` by <= k (or exactly k) deviations
+                                         (`only`: restrict the sites to these option names)
     wrap_leaves(desc, wrapper)        -> desc with every leaf wrapped in "nomeasure" / "cast"
     families(tier, seed=0, include_fixed=False)
                                       -> ordered list of family descriptors (small dicts) that make up the
@@ -88,7 +97,7 @@ TEXTS = ["ab cd", WIDE_IN + WIDE_LAST, "a\nbb c", "a" + WIDE_SINGLE + " b", MIXE
 HEADERS = ["h", "hd x", "\u3042h", "h4"]
 FOOTERS = ["f", "\u3042", "f g", "f4"]
 
-STRUCTURAL = {"text": ("s",), "tree": ("shape",), "table": ("ncols", "cols")}
+STRUCTURAL = {"text": ("s", "share"), "tree": ("shape",), "table": ("ncols", "cols")}
 
 DEFAULTS = {
     "text": {"justify": None, "overflow": None, "no_wrap": None},
@@ -108,7 +117,8 @@ DEFAULTS = {
     "tree": {"collapsed": []},
     "table": {"box": "HEAVY_HEAD", "show_header": True, "show_footer": False, "show_edge": True,
               "show_lines": False, "leading": 0, "padding": [0, 1], "pad_edge": True, "collapse_padding": False,
-              "expand": False, "min_width": None, "title": None, "caption": None, "width": None},
+              "expand": False, "min_width": None, "title": None, "caption": None, "width": None,
+              "hdr": None, "ftr": None},       # hdr / ftr: header / footer of column 0 instead of HEADERS[0] / FOOTERS[0]
     "column": {"justify": "left", "overflow": "ellipsis", "ratio": None, "max_width": None, "min_width": None,
                "width": None, "no_wrap": False},
 }
@@ -121,22 +131,22 @@ ALTS = {
     "bar": [("width", [3, 30]), ("end", [10, 2])],
     "pbar": [("width", [3, 30]), ("pulse", [True]), ("completed", [10, 0, 20]), ("total", [0])],
     "nomeasure": [], "cast": [],
-    "panel": [("title", ["ti", "あ t", "a long title"]), ("expand", [False]), ("width", [5, 12, 3]),
+    "panel": [("title", ["ti", "あ t", "a long title"]), ("expand", [False]), ("width", [5, 12, 50, 3]),
               ("padding", [0, [1, 2], [0, 0, 0, 3]]), ("box", ["ASCII", "DOUBLE"]),
               ("title_align", ["left", "right"])],
     "padding": [("pad", [[0, 2], [1, 0, 1, 3], 0]), ("expand", [False])],
-    "align": [("align", ["center", "right"]), ("width", [4, 12, 1]), ("pad", [False])],
-    "constrain": [("width", [4, 2, 12, None])],
+    "align": [("align", ["center", "right"]), ("width", [4, 12, 50, 1]), ("pad", [False])],
+    "constrain": [("width", [4, 2, 12, None, 50])],
     "styled": [("style", ["on blue"])],
     "group": [("fit", [False])],
     "columns": [("equal", [True]), ("expand", [True]), ("padding", [[0, 3], 0, [1, 2]]), ("align", ["center", "right", "left"]),
                 ("column_first", [True]), ("right_to_left", [True]), ("title", ["ti tle", "あ"]),
-                ("width", [3, 1, 30])],
+                ("width", [3, 1, 30, 50])],
     "table": [("expand", [True]), ("leading", [1, 2]), ("box", [None, "SIMPLE", "ASCII", "MINIMAL"]),
               ("padding", [0, [0, 2], [1, 1]]), ("collapse_padding", [True]), ("pad_edge", [False]),
               ("show_edge", [False]), ("show_lines", [True]), ("show_header", [False]), ("show_footer", [True]),
               ("min_width", [12, 30]), ("title", ["ti tle", "あ"]), ("caption", ["あ cap"]),
-              ("width", [10, 1, 30])],
+              ("width", [10, 1, 30, 50])],
     "column": [("ratio", [1, 2]), ("max_width", [1, 3]), ("min_width", [4, 9]), ("justify", ["right", "center", "full"]),
                ("overflow", ["fold", "crop"]), ("width", [1, 5]), ("no_wrap", [True])],
 }
@@ -287,15 +297,38 @@ def tree_parent(shape, i):
     return (i - 1) // 2
 
 
-def build(d):
+def optstr(v):
+    """string of a title-like option value: str | {"text": s[, "share": key]} | None"""
+    return v["text"] if isinstance(v, dict) else v
+
+
+def _targ(v, bind):
+    """title-like option value -> constructor argument"""
+    if not isinstance(v, dict):
+        return v
+    from rich.text import Text
+    key = v.get("share")
+    if key is None or bind is None:
+        return Text(v["text"])
+    if key not in bind:
+        bind[key] = Text(v["text"])
+    return bind[key]
+
+
+def build(d, bind=None):
     kind, o, kids = d
     g = lambda name: o.get(name, DEFAULTS[kind][name])  # noqa: E731
     if kind == "text":
         from rich.text import Text
+        key = o.get("share")
+        if key is not None and bind is not None:
+            if key not in bind:
+                bind[key] = Text(o["s"], justify=g("justify"), overflow=g("overflow"), no_wrap=g("no_wrap"))
+            return bind[key]
         return Text(o["s"], justify=g("justify"), overflow=g("overflow"), no_wrap=g("no_wrap"))
     if kind == "rule":
         from rich.rule import Rule
-        return Rule(g("title"), characters=g("characters"), align=g("align"))
+        return Rule(_targ(g("title"), bind), characters=g("characters"), align=g("align"))
     if kind == "bar":
         from rich.bar import Bar
         return Bar(g("size"), g("begin"), g("end"), width=g("width"))
@@ -304,34 +337,34 @@ def build(d):
         return ProgressBar(total=g("total"), completed=g("completed"), width=g("width"), pulse=g("pulse"),
                            animation_time=0.0)
     if kind == "nomeasure":
-        return NoMeasure(build(kids[0]))
+        return NoMeasure(build(kids[0], bind))
     if kind == "cast":
-        return Cast(build(kids[0]))
+        return Cast(build(kids[0], bind))
     if kind == "panel":
         from rich.panel import Panel
         from rich import box
-        return Panel(build(kids[0]), getattr(box, g("box")), title=g("title"), title_align=g("title_align"),
+        return Panel(build(kids[0], bind), getattr(box, g("box")), title=_targ(g("title"), bind), title_align=g("title_align"),
                      expand=g("expand"), width=g("width"), padding=_tup(g("padding")))
     if kind == "padding":
         from rich.padding import Padding
-        return Padding(build(kids[0]), _tup(g("pad")), expand=g("expand"))
+        return Padding(build(kids[0], bind), _tup(g("pad")), expand=g("expand"))
     if kind == "align":
         from rich.align import Align
-        return Align(build(kids[0]), g("align"), pad=g("pad"), width=g("width"))
+        return Align(build(kids[0], bind), g("align"), pad=g("pad"), width=g("width"))
     if kind == "constrain":
         from rich.constrain import Constrain
-        return Constrain(build(kids[0]), g("width"))
+        return Constrain(build(kids[0], bind), g("width"))
     if kind == "styled":
         from rich.styled import Styled
-        return Styled(build(kids[0]), g("style"))
+        return Styled(build(kids[0], bind), g("style"))
     if kind == "group":
         from rich.console import RenderGroup
-        return RenderGroup(*[build(k) for k in kids], fit=g("fit"))
+        return RenderGroup(*[build(k, bind) for k in kids], fit=g("fit"))
     if kind == "columns":
         from rich.columns import Columns
-        return Columns([build(k) for k in kids], padding=_tup(g("padding")), width=g("width"), expand=g("expand"),
+        return Columns([build(k, bind) for k in kids], padding=_tup(g("padding")), width=g("width"), expand=g("expand"),
                        equal=g("equal"), column_first=g("column_first"), right_to_left=g("right_to_left"),
-                       align=g("align"), title=g("title"))
+                       align=g("align"), title=_targ(g("title"), bind))
     if kind == "tree":
         from rich.tree import Tree
         shape = o.get("shape", "flat")
@@ -339,9 +372,9 @@ def build(d):
         nodes = []
         for i, k in enumerate(kids):
             if i == 0:
-                nodes.append(Tree(build(k), expanded=0 not in collapsed))
+                nodes.append(Tree(build(k, bind), expanded=0 not in collapsed))
             else:
-                nodes.append(nodes[tree_parent(shape, i)].add(build(k), expanded=i not in collapsed))
+                nodes.append(nodes[tree_parent(shape, i)].add(build(k, bind), expanded=i not in collapsed))
         return nodes[0]
     if kind == "table":
         from rich.table import Table
@@ -349,7 +382,7 @@ def build(d):
         ncols = o["ncols"]
         cols = o.get("cols") or [{}] * ncols
         bx = g("box")
-        t = Table(title=g("title"), caption=g("caption"), width=g("width"), min_width=g("min_width"),
+        t = Table(title=_targ(g("title"), bind), caption=_targ(g("caption"), bind), width=g("width"), min_width=g("min_width"),
                   box=getattr(box, bx) if bx else None, padding=_tup(g("padding")),
                   collapse_padding=g("collapse_padding"), pad_edge=g("pad_edge"), expand=g("expand"),
                   show_header=g("show_header"), show_footer=g("show_footer"), show_edge=g("show_edge"),
@@ -357,11 +390,16 @@ def build(d):
         cd = DEFAULTS["column"]
         for i in range(ncols):
             c = cols[i]
-            t.add_column(HEADERS[i % len(HEADERS)], FOOTERS[i % len(FOOTERS)],
+            hdr, ftr = HEADERS[i % len(HEADERS)], FOOTERS[i % len(FOOTERS)]
+            if i == 0 and g("hdr") is not None:
+                hdr = _targ(g("hdr"), bind)
+            if i == 0 and g("ftr") is not None:
+                ftr = _targ(g("ftr"), bind)
+            t.add_column(hdr, ftr,
                          **{name: c.get(name, cd[name]) for name in cd})
         if ncols:
             for r in range(len(kids) // ncols):
-                t.add_row(*[build(k) for k in kids[r * ncols:(r + 1) * ncols]])
+                t.add_row(*[build(k, bind) for k in kids[r * ncols:(r + 1) * ncols]])
         return t
     raise ValueError("unknown kind %r" % (kind,))
 
@@ -441,7 +479,7 @@ def chains(length, leaves, kinds=CONTAINER_KINDS):
 
 
 # ------------------------------------------------------------------ deviations
-def sites(d, alts=None, include_fixed=False, _path=()):
+def sites(d, alts=None, include_fixed=False, _path=(), only=None):
     """[(path, option, [alternative values])]; path = tuple of kid indices from the root; option is a
     name, or ("col", i, name) for a table column option, or ("collapsed", i) for a tree node."""
     kind, o, kids = d
@@ -451,21 +489,23 @@ def sites(d, alts=None, include_fixed=False, _path=()):
             continue
         if name in o:
             continue            # already deviated: not offered again
+        if only is not None and name not in only:
+            continue
         out.append((_path, name, values[:alts] if alts else values))
     if kind == "table":
         for i in range(o["ncols"]):
             for name, values in ALTS["column"]:
                 if ("column", name) in FIXED_OPTIONS and not include_fixed:
                     continue
-                if name in o["cols"][i]:
+                if name in o["cols"][i] or (only is not None and name not in only):
                     continue
                 out.append((_path, ("col", i, name), values[:alts] if alts else values))
     if kind == "tree":
         for i in range(len(kids)):
-            if i not in o.get("collapsed", []):
+            if i not in o.get("collapsed", []) and (only is None or "collapsed" in only):
                 out.append((_path, ("collapsed", i), [True]))
     for i, k in enumerate(kids):
-        out.extend(sites(k, alts, include_fixed, _path + (i,)))
+        out.extend(sites(k, alts, include_fixed, _path + (i,), only))
     return out
 
 
@@ -489,10 +529,10 @@ def set_option(d, path, name, value):
     return [kind, no, kids]
 
 
-def variants(d, k, alts=None, include_fixed=False, exactly=False):
+def variants(d, k, alts=None, include_fixed=False, exactly=False, only=None):
     """Every description reachable from d by choosing j <= k distinct option sites (j == k with
     `exactly`) and one alternative value for each.  j = 0 yields d itself."""
-    ss = sites(d, alts, include_fixed)
+    ss = sites(d, alts, include_fixed, only=only)
     for j in range(k if exactly else 0, k + 1):
         for combo in itertools.combinations(ss, j):
             for vals in itertools.product(*[c[2] for c in combo]):
@@ -527,6 +567,12 @@ def families(tier, seed=0, include_fixed=False):
               D2x2: depth 2 single-kid containers over 2 texts, exactly 2 deviations
               D3: depth 3, <=2 kids, single-kid root, 1 text, default options
               CH3: 9^3 chains x 14 texts; CH4: 9^4 chains x 5 texts; CH4x1: 9^4 chains x 1 text, exactly 1 deviation
+    both      WT: {panel, align, constrain} over {2 texts, rule, panel, columns, 1x1 table} (with include_fixed also
+                  table / columns over a text), 0..2 (thorough 0..3) deviations among the options width / title /
+                  caption / expand with ALL their alternatives (widths include 50 = above most available widths)
+              SH: group [host, t, other] where the text leaf t and an argument or kid of the host carry the same
+                  "share" key: hosts = SHARE_HOSTS (title / caption / header / footer / label / kid slots) x SHARE_TEXTS.
+                  build(desc) gives copies, build(desc, bind={}) gives the one-object form (see C01 / C09)
     include_fixed additionally offers FIXED_OPTIONS in every family with deviations and adds the family ZT
     (zero-column / zero-row tables, alone and inside each single-kid container, 0..1 deviations)."""
     fx = bool(include_fixed)
@@ -559,6 +605,11 @@ def families(tier, seed=0, include_fixed=False):
         F.append(_fam("CH3", base="chain", length=3, texts=14, dev=[0], alts=1, fixed=fx))
         F.append(_fam("CH4", base="chain", length=4, texts=5, dev=[0], alts=1, fixed=fx))
         F.append(_fam("CH4x1", base="chain", length=4, texts=1, dev=[1], alts=1, fixed=fx))
+    # both tiers: fixed `width=` options (incl. values above the available width) x titles x expand, all alternatives
+    F.append(_fam("WT", base="wt", dev=[0, 1, 2] if tier == "quick" else [0, 1, 2, 3], alts=None, fixed=fx,
+                  only=["width", "title", "caption", "expand"]))
+    # both tiers: ONE Text object used as an argument / kid of a host and again as its sibling (shared-argument histories)
+    F.append(_fam("SH", base="shared", dev=[0], alts=1, fixed=fx))
     if fx:
         F.append(_fam("ZT", base="zero", dev=[0, 1], alts=2, fixed=True))
     return F
@@ -590,7 +641,70 @@ def _zero_tables():
         yield ["table", {"ncols": 1, "cols": [{}]}, [z]]
 
 
+SHARE_TEXTS = ["Status", "a long title here", WIDE_IN + " t", "ab\ncd"]
+SHARE_OTHER = "other words here"
+
+
+def share_hosts(s):
+    """(slot name, host description) for every place a caller-owned Text(s) can be handed to a host"""
+    a = {"text": s, "share": "t"}                     # as an argument
+    k = ["text", {"s": s, "share": "t"}, []]          # as a kid
+    body = T("body x")
+    one = {"ncols": 1, "cols": [{}]}
+    return [
+        ("panel.title", ["panel", {"title": a}, [body]]),
+        ("panel.title+fit", ["panel", {"title": a, "expand": False}, [body]]),
+        ("rule.title", ["rule", {"title": a}, []]),
+        ("table.title", ["table", dict(one, title=a), [body]]),
+        ("table.caption", ["table", dict(one, caption=a), [body]]),
+        ("table.header", ["table", dict(one, hdr=a), [body]]),
+        ("table.footer", ["table", dict(one, ftr=a, show_footer=True), [body]]),
+        ("columns.title", ["columns", {"title": a}, [body, body]]),
+        ("panel.kid", ["panel", {}, [k]]),
+        ("padding.kid", ["padding", {}, [k]]),
+        ("align.kid", ["align", {"align": "center"}, [k]]),
+        ("constrain.kid", ["constrain", {"width": 6}, [k]]),
+        ("styled.kid", ["styled", {"style": "on blue"}, [k]]),
+        ("table.cell", ["table", dict(one), [k]]),
+        ("columns.item", ["columns", {}, [k, body]]),
+        ("tree.label", ["tree", {"shape": "flat"}, [k, body]]),
+        ("tree.child", ["tree", {"shape": "flat"}, [body, k]]),
+    ]
+
+
+def share_slot(d):
+    """slot name of an SH description"""
+    s = d[2][1][1]["s"]
+    for name, host in share_hosts(s):
+        if host == d[2][0]:
+            return name
+    return "?"
+
+
+def _shared_groups():
+    for s in SHARE_TEXTS:
+        for _name, host in share_hosts(s):
+            yield ["group", {}, [host, ["text", {"s": s, "share": "t"}, []], T(SHARE_OTHER)]]
+
+
+def _wt_bases(fixed):
+    leaves = [T(s) for s in TEXTS[:2]]
+    one = {"ncols": 1, "cols": [{}]}
+    inner = [["rule", {}, []], ["panel", {}, [leaves[0]]], ["columns", {}, [leaves[0]]],
+             ["table", dict(one), [leaves[0]]]]
+    for x in ("panel", "align", "constrain"):
+        for k in leaves + inner:
+            yield [x, {}, [k]]
+    if fixed:
+        yield ["table", dict(one), [leaves[0]]]
+        yield ["columns", {}, [leaves[0], leaves[1]]]
+
+
 def family_bases(fam):
+    if fam["base"] == "wt":
+        return _wt_bases(fam["fixed"])
+    if fam["base"] == "shared":
+        return _shared_groups()
     if fam["base"] == "chain":
         return chains(fam["length"], [T(s) for s in TEXTS[:fam["texts"]]])
     if fam["base"] == "zero":
@@ -608,7 +722,7 @@ def family_trees(fam):
             if k == 0:
                 yield base
             else:
-                for t in variants(base, k, fam["alts"], fam["fixed"], exactly=True):
+                for t in variants(base, k, fam["alts"], fam["fixed"], exactly=True, only=fam.get("only")):
                     yield t
 
 
